@@ -127,7 +127,6 @@ func init() {
 		}
 		end()
 
-		drawUpperHabit(rng)
 		var cases []handlerCase
 		for _, hc := range mkCases(app, addrs) {
 			// MsgUpdateSwapFeeParamsRequest contains "swap": the ante fee floor of 0.1 rowan applies to it, and a paid fee
@@ -217,7 +216,7 @@ func init() {
 				op := fmt.Sprintf("msg %s %s %s", hc.module, hc.name, addrs[signer].String())
 				if hc.payload != nil {
 					ro, a := hc.payload(k)
-					op += " " + ro + " " + a
+					op += " " + ro + " " + a + " " + canonOf(a)
 				}
 				out.Emit(op, res, cls, true)
 			} else {
@@ -255,19 +254,27 @@ func init() {
 				updatePools = hc
 			}
 		}
-		for _, acct := range []int{12, 11} {
-			kk := 5 + 6*acct
+		span := 6 * NACC
+		for _, sp := range []int{0, 5} {
+			acct := 11 + sp/5
+			kk := 5 + 6*acct + sp*span
 			one(cases[0], "direct", 10, kk)
 			one(updatePools, "direct", acct, 6*acct)
 			one(cases[1], "direct", 10, kk)
 			one(updatePools, "wrapped", acct, 6*acct)
 		}
+		// mixed (F24): granted in lower case, removal attempted in upper case, then in lower case
+		one(cases[0], "direct", 10, 5+6*13)
+		one(cases[1], "wrapped", 10, 5+6*13+5*span)
+		one(updatePools, "direct", 13, 6*13)
+		one(cases[1], "direct", 10, 5+6*13)
+		one(updatePools, "direct", 13, 6*13)
 		// phase 2: the table evolves through transactions
 		for out.N < n {
 			k++
 			hc := cases[rng.Intn(2)]
 			s := []int{4, 10, 4, 10, 10, rng.Intn(NACC)}[rng.Intn(6)]
-			kk := rng.Intn(len(authRoles) * NACC)
+			kk := rng.Intn(len(authRoles) * NACC * 8)
 			one(hc, []string{"direct", "wrapped"}[rng.Intn(2)], s, kk)
 			target := (kk / len(authRoles)) % NACC
 			for j := 0; j < 5; j++ {
